@@ -1,6 +1,3 @@
-//go:build c07admit
-// +build c07admit
-
 package main
 
 // Admission entry points driven through the REAL handlers with mixed batches:
@@ -106,16 +103,9 @@ func (r *admitReport) viol(key, desc string, replay map[string]string) {
 	os.Stdout.Sync()
 }
 
-func runBatch(entry string, pool service.TransactionPool, c chainCfg, height uint64, batch []elem, rep *admitReport) {
-	c.apply()
-	common.SetBlockHeight(height)
-	middleware.AccountDBManagerInstance.Height = height
-	pool.Clear()
+// driveEntry pushes the transactions through one real admission entry point.
+func driveEntry(entry string, txs []*types.Transaction) (string, []byte) {
 	var body []byte
-	txs := make([]*types.Transaction, len(batch))
-	for i, e := range batch {
-		txs[i] = cloneTx(e.tx)
-	}
 	res := hx.Guard(func() string {
 		switch entry {
 		case "worker":
@@ -138,6 +128,71 @@ func runBatch(entry string, pool service.TransactionPool, c chainCfg, height uin
 		}
 		return "done"
 	})
+	return res, body
+}
+
+// batchOp: one `batch` op of the correspondence stream — the real handler on an empty pool, then
+// per position whether that element (first occurrence of its content) is in the pool.
+func (rn *runner) batchOp(tag, entry string, c chainCfg, height uint64, batch []*types.Transaction) string {
+	c.apply()
+	o := newOracle()
+	line := "batch " + entry + " " + strconv.FormatUint(height, 10) + " " + c.tokens() + " " + strconv.Itoa(len(batch))
+	for _, t := range batch {
+		if t.Type == types.TransactionTypeETHTX {
+			ethOracle(o, common.FromHex(t.ExtraData), refEthChain(c, height))
+		} else {
+			nativeOracle(o, t)
+		}
+		line += " " + txTokens(t)
+	}
+	line += o.String()
+	r := rn.out.Do(line, func() string {
+		common.SetBlockHeight(height)
+		middleware.AccountDBManagerInstance.Height = height
+		rn.pool.Clear()
+		txs := make([]*types.Transaction, len(batch))
+		for i, t := range batch {
+			txs[i] = cloneTx(t)
+		}
+		if res, _ := driveEntry(entry, txs); res != "done" {
+			return res
+		}
+		got := rn.pool.GetReceived()
+		flags := make([]byte, len(batch))
+		for i, t := range batch {
+			flags[i] = '0'
+			first := true
+			for j := 0; j < i; j++ {
+				if sameContent(batch[j], t) {
+					first = false
+				}
+			}
+			if first {
+				for _, p := range got {
+					if sameContent(p, t) {
+						flags[i] = '1'
+					}
+				}
+			}
+		}
+		rn.pool.Clear()
+		return string(flags)
+	})
+	rn.tags[tag]++
+	rn.res[tag+"/"+r]++
+	return r
+}
+
+func runBatch(entry string, pool service.TransactionPool, c chainCfg, height uint64, batch []elem, rep *admitReport) {
+	c.apply()
+	common.SetBlockHeight(height)
+	middleware.AccountDBManagerInstance.Height = height
+	pool.Clear()
+	txs := make([]*types.Transaction, len(batch))
+	for i, e := range batch {
+		txs[i] = cloneTx(e.tx)
+	}
+	res, body := driveEntry(entry, txs)
 	got := pool.GetReceived()
 	rep.Batches++
 	rep.ByEntry[entry]++
